@@ -116,3 +116,39 @@ def order_on_all_paths(fn, cfg, seq_blocks, what):
             if not ok:
                 return False, "from bb%d (%s) a return is reachable without passing %s: path %s" % (a, what[i], what[i + 1], wit)
     return True, "ok"
+
+
+def str_guards(fn):
+    """[(literal, call bb, true block, false block)] for every `x == "literal"` string test"""
+    from .util import const_str
+    out = []
+    for bi, t in fn.calls():
+        if not def_of(t).endswith("cmp::PartialEq::eq"):
+            continue
+        lit = None
+        for a in t["args"]:
+            s = const_str(a)
+            if s is not None:
+                lit = s
+        if lit is None:
+            continue
+        e = bool_edges(fn, bi)
+        if e:
+            out.append((lit, bi, e[0], e[1]))
+    return out
+
+
+def arm_blocks(cfg, true_block):
+    """blocks dominated by the true edge of a guard"""
+    return {b for b in cfg.reach0 if cfg.dominates(true_block, b)}
+
+
+def awaited(fn, create_bb):
+    """the Future::poll call sites that poll the future created by the call in block create_bb"""
+    t = fn.blocks[create_bb]["t"]
+    inst = inst_of(t)
+    out = []
+    for bi, pt in fn.calls():
+        if def_of(pt).endswith("future::Future::poll") and inst_of(pt) == inst + "::{closure#0}":
+            out.append(bi)
+    return out
